@@ -111,6 +111,21 @@ def check_table(case):
             bad.append(({'kind': 'table_bytes_from_other_sequence_types_differ'}, 'rows as tuples, pairs as lists, labels as a tuple: %d bytes, as lists of tuples %d bytes' % (len(body4), len(body))))
     except Exception as err:  # noqa
         bad.append(({'kind': 'table_write_raises', 'exc': type(err).__name__, 'rows': 'tuples of lists'}, 'rows as tuples, (value, units) pairs as lists: %s: %s' % (type(err).__name__, err)))
+    # a composing call that the library refuses (a row-start block handed to addDatumBlock, an explicit raise) leaves the table as it was:
+    # the same bytes and the same column labels as the writer that was never asked
+    try:
+        tw5 = LogiRec.LrTableWrite(case['lrtype'], case['name'], cols, table_arg)
+        try:
+            tw5.addDatumBlock(LogiRec.CbEngValWrite(0, b'XX  ', b'ZZZZ'))
+            refused = False
+        except LogiRec.ExceptionLrTableCompose:
+            refused = True
+        body5 = bytes([case['lrtype'], 0]) + b''.join(bytes(b) for b in tw5.genLisBytes())
+        if refused and (body5 != body or list(tw5.colLabels()) != list(tw.colLabels())):
+            bad.append(({'kind': 'table_changed_by_a_refused_block'}, 'after a refused addDatumBlock() the table has columns %r and %d bytes, the writer never asked %r and %d bytes'
+                        % (list(tw5.colLabels()), len(body5), list(tw.colLabels()), len(body))))
+    except Exception as err:  # noqa
+        bad.append(({'kind': 'table_write_raises', 'exc': type(err).__name__, 'rows': 'after a refused block'}, 'write after a refused addDatumBlock(): %s: %s' % (type(err).__name__, err)))
     # listing the rows (in any order) is a query: a second writer that is asked for its sorted row names first writes the same bytes
     try:
         tw2 = LogiRec.LrTableWrite(case['lrtype'], case['name'], cols, table_arg)
